@@ -1351,16 +1351,48 @@ fn k_apply_path_transform() {
 
 // ------------------------------------------------------------------ quads -> monotonic curve edges (C08 #2)
 // @ob id=K.add_quad props=C08,C07 kind=complete tier=quick timeout=1200 fns=DrawTarget::add_quad,DrawTarget::quad_to
-// @+ desc="add_quad for finite control points in ±4000: every curve edge handed to the rasteriser is monotonic in y (control y between the end points' y); a quad that is already monotonic is passed through bit for bit; a non-monotonic quad is either chopped at its y-extremum into two halves that share the split point, keep the original end points bit for bit and have their control points level with the split point, or (no usable split parameter) keeps its end points and control x and has its control y snapped to the NEARER end point's y -- the control point never moves further than needed; no debug assertion fires"
+// @+ desc="add_quad for finite control points in ±4000, the NON-monotonic case (the monotonic one is K.add_quad_mono): every curve edge handed to the rasteriser is monotonic in y (control y between the end points' y); a quad that is already monotonic is passed through bit for bit; a non-monotonic quad is either chopped at its y-extremum into two halves that share the split point, keep the original end points bit for bit and have their control points level with the split point, or (no usable split parameter) keeps its end points and control x and has its control y snapped to the NEARER end point's y -- the control point never moves further than needed; no debug assertion fires; chop_quad_at and valid_unit_divide are replaced by their contracts (K.chop_quad_at, K.valid_unit_divide): add_quad is checked against its callees' contracts, for either verdict of the divide, and must establish 0 < t < 1"
+/// chop_quad_at replaced by its contract (proved on the real code in K.chop_quad_at): end points preserved bit for bit,
+/// the three inner points arbitrary
+fn chop_quad_at_contract(src: &[Point; 3], dst: &mut [Point; 5], t: f32) {
+    assert!(t > 0. && t < 1., "chop_quad_at precondition: 0 < t < 1");
+    dst[0] = src[0];
+    dst[1] = Point::new(kani::any(), kani::any());
+    dst[2] = Point::new(kani::any(), kani::any());
+    dst[3] = Point::new(kani::any(), kani::any());
+    dst[4] = src[2];
+    kani::assume(dst[1].x.is_finite() && dst[1].y.is_finite() && dst[2].x.is_finite() && dst[2].y.is_finite() && dst[3].x.is_finite() && dst[3].y.is_finite());
+}
+/// valid_unit_divide replaced by its contract (proved on the real code in K.valid_unit_divide): an arbitrary verdict;
+/// true comes with 0 < *ratio < 1, false leaves *ratio untouched
+fn valid_unit_divide_contract(_numer: f32, _denom: f32, ratio: &mut f32) -> bool {
+    if kani::any() {
+        let r: f32 = kani::any();
+        kani::assume(r > 0. && r < 1.);
+        *ratio = r;
+        true
+    } else { false }
+}
 #[kani::proof]
 #[kani::unwind(10)]
 #[kani::stub(Rasterizer::add_edge, add_edge_rec)]
-fn k_add_quad() {
+#[kani::stub(crate::geom::chop_quad_at, chop_quad_at_contract)]
+#[kani::stub(crate::geom::valid_unit_divide, valid_unit_divide_contract)]
+fn k_add_quad() { add_quad_contract(false); }
+// @ob id=K.add_quad_mono props=C08,C07 kind=complete tier=quick timeout=1200 fns=DrawTarget::add_quad
+// @+ desc="add_quad, the already-monotonic case (a<b<=c or a>b>=c): exactly one curve edge with the three points bit for bit"
+#[kani::proof]
+#[kani::unwind(10)]
+#[kani::stub(Rasterizer::add_edge, add_edge_rec)]
+#[kani::stub(crate::geom::chop_quad_at, chop_quad_at_contract)]
+fn k_add_quad_mono() { add_quad_contract(true); }
+fn add_quad_contract(mono_case: bool) {
     let v: [f32; 6] = kani::any();
     let mut i = 0;
     while i < 6 { kani::assume(v[i].is_finite() && v[i] >= -4000. && v[i] <= 4000.); i += 1; }
     let curve = [Point::new(v[0], v[1]), Point::new(v[2], v[3]), Point::new(v[4], v[5])];
     let (a, b, c) = (v[1], v[3], v[5]);
+    kani::assume(((a < b && b <= c) || (a > b && b >= c)) == mono_case);
     let mut dt = DrawTarget::new(CW, CH);
     edges_reset();
     dt.add_quad(curve);
@@ -1381,9 +1413,9 @@ fn k_add_quad() {
         assert!(bits(e[0].ex) == bits(e[1].sx) && bits(e[0].ey) == bits(e[1].sy), "halves share the split point");
         assert!(e[0].cy == e[0].ey && e[1].cy == e[1].sy, "control points level with the split point: each half monotonic");
     }
-    kani::cover!(n == 2);
-    kani::cover!(n == 1 && !mono_in);
-    kani::cover!(n == 1 && mono_in);
+    kani::cover!(mono_case || n == 2);
+    kani::cover!(mono_case || (n == 1 && !mono_in));
+    kani::cover!(!mono_case || (n == 1 && mono_in));
 }
 
 // ------------------------------------------------------------------ composite at pixel level through the real blitters (C02, C03, C05, C06)
